@@ -17,7 +17,7 @@ pids+=($!)
 rc=0
 for p in "${pids[@]}"; do wait $p || rc=1; done
 [ $rc = 0 ] || { echo "harness compile failed" >&2; exit 1; }
-WRAP="-Wl,--wrap=querysrv -Wl,--wrap=querynaptr -Wl,--wrap=regcomp -Wl,--wrap=regexec -Wl,--wrap=gettimeofday -Wl,--wrap=RAND_bytes -Wl,--wrap=pthread_create -Wl,--wrap=pthread_detach -Wl,--wrap=pthread_cond_timedwait -Wl,--wrap=poll -Wl,--wrap=read -Wl,--wrap=SSL_read -Wl,--wrap=SSL_pending -Wl,--wrap=SSL_get_error -Wl,--wrap=SSL_get_fd -Wl,--wrap=SSL_shutdown -Wl,--wrap=SSL_get_shutdown -Wl,--wrap=SSL_set_shutdown -Wl,--wrap=radsrv -Wl,--wrap=replyh -Wl,--wrap=closeh -Wl,--wrap=timeouth -Wl,--wrap=pthread_join -Wl,--wrap=shutdown -Wl,--wrap=close -Wl,--wrap=pthread_mutex_lock -Wl,--wrap=pthread_mutex_unlock -Wl,--wrap=sleep -Wl,--wrap=malloc -Wl,--wrap=calloc -Wl,--wrap=realloc -Wl,--wrap=strdup -Wl,--wrap=asprintf -Wl,--wrap=recvfrom -Wl,--wrap=recv"
+WRAP="-Wl,--wrap=querysrv -Wl,--wrap=querynaptr -Wl,--wrap=regcomp -Wl,--wrap=regexec -Wl,--wrap=gettimeofday -Wl,--wrap=RAND_bytes -Wl,--wrap=pthread_create -Wl,--wrap=pthread_detach -Wl,--wrap=pthread_cond_timedwait -Wl,--wrap=poll -Wl,--wrap=read -Wl,--wrap=SSL_read -Wl,--wrap=SSL_pending -Wl,--wrap=SSL_get_error -Wl,--wrap=SSL_get_fd -Wl,--wrap=SSL_shutdown -Wl,--wrap=SSL_get_shutdown -Wl,--wrap=SSL_set_shutdown -Wl,--wrap=radsrv -Wl,--wrap=replyh -Wl,--wrap=closeh -Wl,--wrap=timeouth -Wl,--wrap=pthread_join -Wl,--wrap=shutdown -Wl,--wrap=close -Wl,--wrap=pthread_mutex_lock -Wl,--wrap=pthread_mutex_unlock -Wl,--wrap=sleep -Wl,--wrap=malloc -Wl,--wrap=calloc -Wl,--wrap=realloc -Wl,--wrap=strdup -Wl,--wrap=asprintf -Wl,--wrap=recvfrom -Wl,--wrap=recv -Wl,--wrap=connecttcp"
 objs=""; for f in $OTHERS; do objs="$objs $OUT/$f.o"; done
 gcc $CF $WRAP "$OUT/hmain.o" $objs -o "$OUT/hmain" -lssl -lcrypto -lnettle -lresolv
 # the DNS record parsers alone (dns.c is included by the harness so that its statics are reachable)
